@@ -205,7 +205,18 @@ pub fn run(ctx: &Ctx, evidence: Option<&PathBuf>) -> i32 {
             usize::MAX - 1,
             usize::MAX,
         ];
-        for &u in &big {
+        // every single high bit, alone and combined with in-range low bits (a conversion that goes
+        // through a narrower or shifted intermediate loses some of them), plus random wide values
+        let mut wide: Vec<usize> = big.to_vec();
+        for bit in 31..usize::BITS {
+            let hi = 1usize << bit;
+            wide.extend([hi, hi + 1, hi + 127, hi + 128, hi + (MAX as usize), hi | (hi >> 1), hi.wrapping_sub(1)]);
+        }
+        for _ in 0..2000 {
+            let hi = (c.rng.next_u64() as usize) & !(MAX as usize);
+            wide.push(hi | (c.rng.u32() as usize & MAX as usize));
+        }
+        for &u in &wide {
             let r = VarInt::try_from(u);
             let want_ok = u <= MAX as usize;
             c.l.count("usize_conversions");
